@@ -378,8 +378,17 @@ func slurpStagePrograms() []item {
 
 func (st *semState) checkSlurpLast(it item, verbose bool) []viol {
 	p := it.text
+	// open: the right edge of P sits under a binding, label or definition whose scope takes
+	// in the appended stage. Whether fq then treats the slurp function as "last in the
+	// pipeline" is its choice (it may refuse: "must be last"), but if it does collect, what it
+	// collects has to be the outputs of the program the user wrote - never anything else.
+	open := false
 	if !strings.HasPrefix(it.skel, "slurp-stage:") && !slurpSafe(p) {
-		return nil
+		q, err := gojq.Parse(p)
+		if err != nil || len(q.Imports) > 0 || q.Meta != nil {
+			return nil
+		}
+		open = true
 	}
 	e := st.expect(p, "null")
 	if e.skip != "" || e.exit != 0 {
@@ -404,13 +413,28 @@ func (st *semState) checkSlurpLast(it item, verbose bool) []viol {
 	if i := strings.LastIndexByte(out, '\n'); i >= 0 {
 		out = strings.TrimSpace(out[i+1:])
 	}
+	if open {
+		sig = "slurp-open:" + skelTop(it.skel)
+		if st.r != nil {
+			st.r.Count("slurp_open_edge_programs", 1)
+		}
+	}
 	var text string
 	if err := json.Unmarshal([]byte(out), &text); err != nil {
+		if open {
+			return nil
+		}
 		return []viol{{sig: sig + ":no-array", prog: p, what: "the slurped variable was not printed: " + desc}}
 	}
 	got, err := parseJSONStream([]byte(text))
 	if err != nil || len(got) != 1 {
+		if open {
+			return nil
+		}
 		return []viol{{sig: sig + ":no-array", prog: p, what: "the slurped variable is not one JSON value: " + desc}}
+	}
+	if open && st.r != nil {
+		st.r.Count("slurp_open_edge_collected", 1)
 	}
 	var sb strings.Builder
 	sb.WriteString("[")
